@@ -45,18 +45,27 @@ int main()
     quill::PatternFormatterOptions{pat, "%H:%M:%S", quill::Timezone::GmtTime, true}, quill::ClockSourceType::System);
   Obl o1{"dispatch.whole_statement", "C12", "", "add_metadata_to_multi_line_logs off: exactly one statement = pattern around the whole message with at most one trailing newline removed"};
   Obl o2{"dispatch.one_line_per_message_line", "C12", "", "add_metadata_to_multi_line_logs on: one complete pattern line per message line, in order (a final newline opens no extra line; an empty message is one empty line)"};
+  Obl o4{"dispatch.named_args_attribute_per_statement", "C12", "", "%(named_args) is substituted by THIS statement's key / value pairs: empty for a statement without named arguments, whatever was logged before (seed C12-Q5)"};
+  auto s_na = std::make_shared<RecSink>();
+  quill::Logger* na = quill::Frontend::create_or_get_logger("na", std::static_pointer_cast<quill::Sink>(s_na),
+    quill::PatternFormatterOptions{"%(message) [%(named_args)]|END", "%H:%M:%S", quill::Timezone::GmtTime, false}, quill::ClockSourceType::System);
   Obl o3{"dispatch.named_args_whole", "C12", "", "add_metadata_to_multi_line_logs on but the statement has named args: one whole statement as with the option off"};
   long n = for_all_strings("ab\n", LEN, [&](std::string const& m) {
     LOG_INFO(off, "{}", m); backend->poll();
     check(o1, s_off->statements == spec_whole("<off>[I]" + mid, m), m); s_off->statements.clear();
     LOG_INFO(on, "{}", m); backend->poll();
     check(o2, s_on->statements == spec_lines("<on>[I]" + mid, m), m); s_on->statements.clear();
+    if (m.find('\n') == std::string::npos)
+    {
+      LOG_INFO(na, "{x}", m); LOG_INFO(na, "{}", m); backend->poll();
+      check(o4, s_na->statements.size() == 2 && s_na->statements[0] == m + " [x: " + m + "]|END\n" && s_na->statements[1] == m + " []|END\n", m + (s_na->statements.size() == 2 ? " second line: " + s_na->statements[1] : " (wrong number of statements)")); s_na->statements.clear();
+    }
     LOG_INFO(on, "{x}", m); backend->poll();
     check(o3, s_on->statements == spec_whole("<on>[I]" + mid, m), m); s_on->statements.clear();
   });
   printf("SPACE every message of length <= %d over {a, b, \\n} x {option off, option on, option on with a named argument}, through the real frontend + ManualBackendWorker\n", LEN);
   printf("DISTINCT %ld\n", 3 * n);
   printf("SAMPLE a\\x0A\\x0A\n");
-  report(o1); report(o2); report(o3);
-  return (o1.failed || o2.failed || o3.failed) ? 1 : 0;
+  report(o1); report(o2); report(o3); report(o4);
+  return (o1.failed || o2.failed || o3.failed || o4.failed) ? 1 : 0;
 }
